@@ -9,8 +9,8 @@ CONSTANTS
   ForeignAt = "none"
   RenderFails = FALSE
   CacheMisses = TRUE
-  VerBumps = TRUE
-  Forges = TRUE
+  VerBumps = FALSE
+  Forges = FALSE
   FailKinds = {"fnerror1", "fnerror2", "fatal1", "fatal2", "reqloop1", "reqloop2", "reqlabel1", "reqlabel2"}
 VIEW view
 ACTION_CONSTRAINT Emit
